@@ -19,7 +19,7 @@
  *  rmode: 0 none, 1 rows (restart_in_rows / TJPARAM_RESTARTROWS), 2 blocks (restart_interval / TJPARAM_RESTARTBLOCKS)
  *  pf   : tj: TJPF_* ; lj: 0 natural colour space for nc, 1 JCS_UNKNOWN, 2 JCS_EXT_BGR (nc=3), 3 JCS_EXT_XRGB (nc=3)
  *  scanmode (lj): 0 default single scan, 1 explicit single scan, 2 one scan per component (own psv/pt),
- *                 3 scan {0} then scan {1..nc-1}
+ *                 3 scan {0} then scan {1..nc-1}, 4 scans of up to 3 consecutive components (nc up to 10, JCS_UNKNOWN)
  *  bufimg (lj decode): 1 = buffered-image mode (jpeg_consume_input / jpeg_start_output)
  */
 #include <stdio.h>
@@ -32,7 +32,7 @@
 #include "jerror.h"
 #include "turbojpeg.h"
 
-#define MAXC 4
+#define MAXC 10
 #define MAXPIX (1 << 18)
 static char line[1 << 23];
 static int plane[MAXC][MAXPIX];     /* input planes (samples or injected differences) */
@@ -154,6 +154,13 @@ static int lj_compress(int prec, int w, int h, int nc, int rmode, long rval, int
     scans[0].Ss = pp[0]; scans[0].Se = 0; scans[0].Ah = 0; scans[0].Al = pp[1];
     scans[1].comps_in_scan = nc - 1; for (ci = 1; ci < nc; ci++) scans[1].component_index[ci - 1] = ci;
     scans[1].Ss = pp[2]; scans[1].Se = 0; scans[1].Ah = 0; scans[1].Al = pp[3]; ns = 2;
+  }
+  else if (scanmode == 4) {
+    for (ci = 0; ci < nc; ci += 3) {
+      int k, m = nc - ci < 3 ? nc - ci : 3;
+      scans[ns].comps_in_scan = m; for (k = 0; k < m; k++) scans[ns].component_index[k] = ci + k;
+      scans[ns].Ss = pp[2 * ci]; scans[ns].Se = 0; scans[ns].Ah = 0; scans[ns].Al = pp[2 * ci + 1]; ns++;
+    }
   }
   if (ns) { c.scan_info = scans; c.num_scans = ns; }
   jpeg_start_compress(&c, TRUE);
